@@ -332,6 +332,11 @@ func Generate(p Profile, n int, seed int64) []Script {
 		var planned []Step
 		if p.Mutations && i%4 == 3 {
 			switch {
+			case i%32 == 23:
+				// a default rule that backtracks, and a version that differs from the loaded one in nothing
+				// but the spelling of the rule's own setting (not given <-> false)
+				planned = g.btonly(rng)
+				sc.Default, sc.DefBt = true, true
 			case i%32 == 7:
 				planned = g.merged(rng)
 			case i%16 == 15:
@@ -674,6 +679,35 @@ func validExpr(e []Tok) bool {
 	}
 
 	return len(e) > 0
+}
+
+// btonly: a rule restricted to GET under a covering wildcard; its backtracking setting goes from "not given"
+// (the default rule's, which backtracks) to false and back, nothing else changes.
+func (g *gen) btonly(rng *rand.Rand) []Step {
+	a := g.pick(g.lits)
+	lit := func(v string) Tok { return Tok{T: "lit", V: v} }
+	mk := func(id, src string, e []Tok, bt string, methods []Method) Rule {
+		return Rule{ID: id, Src: src, Methods: methods, Hosts: []Matcher{},
+			Routes: []Route{{Expr: e, Params: []Matcher{}}}, BtSet: bt, Bt: bt == "true"}
+	}
+
+	g.nid++
+	id := fmt.Sprintf("s1-r%d", g.nid)
+	onlyGet := []Method{{M: "GET"}}
+	first, second := "unset", "false"
+
+	if rng.Intn(2) == 0 {
+		first, second = second, first
+	}
+
+	cover := mk("s3-cover", "s3", []Tok{{T: pick2(rng, "one", "free"), N: "x"}}, "unset", []Method{})
+
+	return []Step{
+		{Kind: "add", Src: "s3", Rules: []Rule{cover}},
+		{Kind: "add", Src: "s1", Rules: []Rule{mk(id, "s1", []Tok{lit(a)}, first, onlyGet)}},
+		{Kind: "update", Src: "s1", Rules: []Rule{mk(id, "s1", []Tok{lit(a)}, second, onlyGet)}},
+		{Kind: "update", Src: "s1", Rules: []Rule{mk(id, "s1", []Tok{lit(a)}, first, onlyGet)}},
+	}
 }
 
 // merged: two literals of which one is a byte prefix of the other ("foo", "foobar") under one parent, the
